@@ -6,6 +6,12 @@
 #@include ../u1_cell/splices.vs :: trait CellType > fn wrapping_add @ sig
 #@include ../u1_cell/splices.vs :: trait CellType > fn wrapping_mul @ d3 r
 #@include ../u1_cell/splices.vs :: trait CellType > fn wrapping_mul @ sig
+#@include ../u1_cell/splices.vs :: trait CellType > fn wrapping_neg @ d3 r
+#@include ../u1_cell/splices.vs :: trait CellType > fn wrapping_neg @ sig
+#@include ../u1_cell/splices.vs :: trait CellType > fn wrapping_shr @ d3 r
+#@include ../u1_cell/splices.vs :: trait CellType > fn wrapping_shr @ sig
+#@include ../u1_cell/splices.vs :: trait CellType > fn is_odd @ d3 r
+#@include ../u1_cell/splices.vs :: trait CellType > fn is_odd @ sig
 
 @@ struct ExprPart @ before
 #[verifier::reject_recursive_types(C)]
@@ -50,6 +56,251 @@ if else
                 lemma_prod_single(var, rho);
             }
         }
+
+#@ ---------------------------------------------------------------- neg
+@@ impl<C: CellType> Expr<C> > fn neg @ shape
+for
+@@ impl<C: CellType> Expr<C> > fn neg @ d12
+@@ impl<C: CellType> Expr<C> > fn neg @ d3 r
+@@ impl<C: CellType> Expr<C> > fn neg @ sig
+        // "the value of a negation equals the negation of the value (mod 2^width)"
+        ensures forall|rho: spec_fn(isize) -> nat| #[trigger] eval(&r, rho) == (m_of(C::bits()) - eval(self, rho)) % m_of(C::bits())
+@@ impl<C: CellType> Expr<C> > fn neg @ loop 1
+            invariant
+                res.parts@.len() == self.parts@.len(), it1 <= res.parts@.len(),
+                forall|k: int| 0 <= k < it1 ==> (#[trigger] res.parts@[k]).vars@ == self.parts@[k].vars@
+                    && res.parts@[k].coef.v() as int == (m_of(C::bits()) - self.parts@[k].coef.v()) % m_of(C::bits()),
+                forall|k: int| it1 <= k < res.parts@.len() ==> (#[trigger] res.parts@[k]).vars@ == self.parts@[k].vars@
+                    && res.parts@[k].coef == self.parts@[k].coef,
+            decreases res.parts@.len() - it1
+@@ impl<C: CellType> Expr<C> > fn neg @ loop 1 after
+        proof {
+            let m = m_of(C::bits());
+            C::facts(); lemma_pow2_pos(C::bits());
+            assert forall|k: int| 0 <= k < self.parts@.len() implies (#[trigger] self.parts@[k]).coef.v() < m by { C::v_lt(self.parts@[k].coef); }
+            assert forall|rho: spec_fn(isize) -> nat| #[trigger] eval(&res, rho) == (m - eval(self, rho)) % m by {
+                lemma_sum_neg(self.parts@, res.parts@, rho, m);
+                lemma_neg_mod(sum_parts(res.parts@, rho) as int, sum_parts(self.parts@, rho) as int, m);
+            }
+        }
+
+#@ ---------------------------------------------------------------- half
+@@ impl<C: CellType> Expr<C> > fn half @ shape
+if for else
+@@ impl<C: CellType> Expr<C> > fn half @ d11 1
+            invariant d11_1_i <= self.parts@.len(),
+                d11_1 == (forall|k: int| 0 <= k < d11_1_i ==> (#[trigger] self.parts@[k]).coef.v() % 2 == 0),
+            decreases self.parts@.len() - d11_1_i
+@@ impl<C: CellType> Expr<C> > fn half @ d12
+@@ impl<C: CellType> Expr<C> > fn half @ d3 r
+@@ impl<C: CellType> Expr<C> > fn half @ sig
+        // "the value of a halving result, doubled, equals the value (mod 2^width)"; None only when
+        // some coefficient is odd
+        ensures
+            r.is_some() ==> forall|rho: spec_fn(isize) -> nat| #[trigger] eval(self, rho) == (2 * eval(&r.unwrap(), rho)) % m_of(C::bits()),
+            r.is_none() ==> exists|k: int| 0 <= k < self.parts@.len() && (#[trigger] self.parts@[k]).coef.v() % 2 == 1,
+@@ impl<C: CellType> Expr<C> > fn half @ loop 1
+                invariant
+                    res.parts@.len() == self.parts@.len(), it1 <= res.parts@.len(),
+                    forall|k: int| 0 <= k < self.parts@.len() ==> (#[trigger] self.parts@[k]).coef.v() % 2 == 0,
+                    forall|k: int| 0 <= k < it1 ==> (#[trigger] res.parts@[k]).vars@ == self.parts@[k].vars@
+                        && 2 * res.parts@[k].coef.v() == self.parts@[k].coef.v(),
+                    forall|k: int| it1 <= k < res.parts@.len() ==> (#[trigger] res.parts@[k]).vars@ == self.parts@[k].vars@
+                        && res.parts@[k].coef == self.parts@[k].coef,
+                decreases res.parts@.len() - it1
+@@ impl<C: CellType> Expr<C> > fn half @ loop 1 body_end
+                proof {
+                    C::facts(); lemma2_to64();
+                    assert(pow2(1) == 2);
+                }
+@@ impl<C: CellType> Expr<C> > fn half @ loop 1 after
+            proof {
+                let m = m_of(C::bits());
+                C::facts(); lemma_pow2_pos(C::bits());
+                assert forall|rho: spec_fn(isize) -> nat| #[trigger] eval(self, rho) == (2 * eval(&res, rho)) % m by {
+                    lemma_sum_half(self.parts@, res.parts@, rho);
+                    lemma_mul_mod_noop_right(2, sum_parts(res.parts@, rho) as int, m);
+                }
+            }
+
+#@ ---------------------------------------------------------------- prod_inc_of / inc_of
+@@ impl<C: CellType> Expr<C> > fn prod_inc_of @ shape
+if for if else else
+@@ impl<C: CellType> Expr<C> > fn prod_inc_of @ d11 1
+            invariant d11_1_i <= self.parts@.len(),
+                d11_1 == (forall|k: int| 0 <= k < d11_1_i ==> !(#[trigger] self.parts@[k]).vars@.contains(var) || self.parts@[k].vars@.len() == 1),
+            decreases self.parts@.len() - d11_1_i
+@@ impl<C: CellType> Expr<C> > fn prod_inc_of @ d6
+@@ impl<C: CellType> Expr<C> > fn prod_inc_of @ d3 r
+@@ impl<C: CellType> Expr<C> > fn prod_inc_of @ sig
+        // "multiple-of decomposition recomposes to the original value":  value == mul * [var] + rest,
+        // and `rest` no longer mentions `var`.  GIVEN that like terms are collected (at most one
+        // part is the plain variable).
+        requires one_single(self.parts@, var)
+        ensures r.is_some() ==> (forall|rho: spec_fn(isize) -> nat|
+                    #[trigger] eval(self, rho) == (r.unwrap().1.v() * rho(var) + eval(&r.unwrap().0, rho)) % m_of(C::bits()))
+                && (forall|k: int| 0 <= k < r.unwrap().0.parts@.len() ==> !(#[trigger] r.unwrap().0.parts@[k]).vars@.contains(var)),
+@@ impl<C: CellType> Expr<C> > fn prod_inc_of @ loop 1 before
+            proof {
+                C::facts();
+                assert(self.parts@.take(0) =~= Seq::<ExprPart<C>>::empty());
+                assert forall|rho: spec_fn(isize) -> nat| #[trigger] sum_parts(self.parts@.take(0), rho) == sum_parts(parts@, rho) + mul.v() * rho(var) by {
+                    lemma_sum_empty::<C>(rho);
+                    assert(parts@ =~= Seq::<ExprPart<C>>::empty());
+                    assert(0 * rho(var) == 0);
+                }
+            }
+@@ impl<C: CellType> Expr<C> > fn prod_inc_of @ loop 1
+                invariant
+                    one_single(self.parts@, var),
+                    forall|k: int| 0 <= k < self.parts@.len() ==> !(#[trigger] self.parts@[k]).vars@.contains(var) || self.parts@[k].vars@.len() == 1,
+                    forall|rho: spec_fn(isize) -> nat|
+                        #[trigger] sum_parts(self.parts@.take(it1.index@ as int), rho) == sum_parts(parts@, rho) + mul.v() * rho(var),
+                    (forall|k: int| 0 <= k < it1.index@ ==> !single(#[trigger] self.parts@[k], var)) ==> mul.v() == 0,
+                    forall|k: int| 0 <= k < parts@.len() ==> !(#[trigger] parts@[k]).vars@.contains(var),
+@@ impl<C: CellType> Expr<C> > fn prod_inc_of @ loop 1 body_start
+                let ghost k = it1.index@ as int;
+                let ghost parts0 = parts@;
+                let ghost mul0 = mul;
+                proof {
+                    assert(self.parts@.take(k + 1) =~= self.parts@.take(k).push(self.parts@[k]));
+                    assert(*part == self.parts@[k]);
+                }
+@@ impl<C: CellType> Expr<C> > fn prod_inc_of @ if 2 then_tail
+                    proof {
+                        let c = parts@.last();
+                        assert(parts@ =~= parts0.push(c));
+                        assert(c.coef == part.coef && c.vars@ == part.vars@);
+                        if part.vars@.len() == 1 {
+                            assert(part.vars@ =~= seq![part.vars@[0]]);
+                            assert(!part.vars@.contains(var)) by {
+                                if part.vars@.contains(var) { let i = choose|i: int| 0 <= i < part.vars@.len() && part.vars@[i] == var; assert(i == 0); }
+                            }
+                        }
+                        assert forall|rho: spec_fn(isize) -> nat|
+                            #[trigger] sum_parts(self.parts@.take(k + 1), rho) == sum_parts(parts@, rho) + mul.v() * rho(var) by {
+                            lemma_sum_push(self.parts@.take(k), self.parts@[k], rho);
+                            lemma_sum_push(parts0, c, rho);
+                            assert(pval(c, rho) == pval(*part, rho));
+                        }
+                        assert(!single(self.parts@[k], var));
+                    }
+@@ impl<C: CellType> Expr<C> > fn prod_inc_of @ if 2 else_tail
+                    proof {
+                        assert(single(self.parts@[k], var));
+                        // no earlier part is the plain variable (like terms are collected)
+                        assert forall|j: int| 0 <= j < k implies !single(#[trigger] self.parts@[j], var) by { }
+                        assert(mul0.v() == 0);
+                        assert(part.vars@ =~= seq![var]);
+                        assert forall|rho: spec_fn(isize) -> nat|
+                            #[trigger] sum_parts(self.parts@.take(k + 1), rho) == sum_parts(parts@, rho) + mul.v() * rho(var) by {
+                            lemma_sum_push(self.parts@.take(k), self.parts@[k], rho);
+                            lemma_prod_single(var, rho);
+                            assert(0 * rho(var) == 0);
+                        }
+                    }
+@@ impl<C: CellType> Expr<C> > fn prod_inc_of @ loop 1 after
+            proof {
+                let m = m_of(C::bits());
+                lemma_pow2_pos(C::bits());
+                assert(self.parts@.take(self.parts@.len() as int) =~= self.parts@);
+                assert forall|rho: spec_fn(isize) -> nat|
+                    (#[trigger] sum_parts(self.parts@, rho)) as int % m == (mul.v() * rho(var) + (sum_parts(parts@, rho) as int) % m) % m by {
+                    lemma_add_mod_noop_right((mul.v() * rho(var)) as int, sum_parts(parts@, rho) as int, m);
+                }
+            }
+
+@@ impl<C: CellType> Expr<C> > fn inc_of @ shape
+if for if else
+@@ impl<C: CellType> Expr<C> > fn inc_of @ body_start
+        proof { C::eq_all(); C::facts(); }
+@@ impl<C: CellType> Expr<C> > fn inc_of @ d11 1
+            invariant d11_1_i <= self.parts@.len(),
+                <C as PartialEqSpec>::obeys_eq_spec(), forall|a: C, b: C| #[trigger] a.eq_spec(&b) == (a.v() == b.v()), C::ONE.v() == 1,
+                d11_1 == (exists|k: int| 0 <= k < d11_1_i && (#[trigger] self.parts@[k]).coef.v() == 1 && single(self.parts@[k], var)),
+            decreases self.parts@.len() - d11_1_i
+@@ impl<C: CellType> Expr<C> > fn inc_of @ d11 2
+            invariant d11_2_i <= self.parts@.len(),
+                d11_2 == (forall|k: int| 0 <= k < d11_2_i ==> !(#[trigger] self.parts@[k]).vars@.contains(var) || self.parts@[k].vars@.len() == 1),
+            decreases self.parts@.len() - d11_2_i
+@@ impl<C: CellType> Expr<C> > fn inc_of @ d6
+@@ impl<C: CellType> Expr<C> > fn inc_of @ d3 r
+@@ impl<C: CellType> Expr<C> > fn inc_of @ sig
+        // "increment-of decomposition recomposes to the original value":  value == [var] + rest, and
+        // `rest` no longer mentions `var`.  GIVEN that like terms are collected.
+        requires one_single(self.parts@, var)
+        ensures r.is_some() ==> (forall|rho: spec_fn(isize) -> nat|
+                    #[trigger] eval(self, rho) == (rho(var) + eval(&r.unwrap(), rho)) % m_of(C::bits()))
+                && (forall|k: int| 0 <= k < r.unwrap().parts@.len() ==> !(#[trigger] r.unwrap().parts@[k]).vars@.contains(var)),
+@@ impl<C: CellType> Expr<C> > fn inc_of @ if 1 then_start
+            let ghost jx = choose|k: int| 0 <= k < self.parts@.len() && (#[trigger] self.parts@[k]).coef.v() == 1 && single(self.parts@[k], var);
+@@ impl<C: CellType> Expr<C> > fn inc_of @ loop 1 before
+            proof {
+                assert(self.parts@.take(0) =~= Seq::<ExprPart<C>>::empty());
+                assert forall|rho: spec_fn(isize) -> nat| #[trigger] sum_parts(self.parts@.take(0), rho) == sum_parts(parts@, rho) by {
+                    lemma_sum_empty::<C>(rho);
+                    assert(parts@ =~= Seq::<ExprPart<C>>::empty());
+                }
+            }
+@@ impl<C: CellType> Expr<C> > fn inc_of @ loop 1
+                invariant
+                    one_single(self.parts@, var),
+                    0 <= jx < self.parts@.len(), self.parts@[jx].coef.v() == 1, single(self.parts@[jx], var),
+                    forall|k: int| 0 <= k < self.parts@.len() ==> !(#[trigger] self.parts@[k]).vars@.contains(var) || self.parts@[k].vars@.len() == 1,
+                    forall|rho: spec_fn(isize) -> nat|
+                        #[trigger] sum_parts(self.parts@.take(it1.index@ as int), rho) == sum_parts(parts@, rho) + (if jx < it1.index@ { rho(var) } else { 0 }),
+                    forall|k: int| 0 <= k < parts@.len() ==> !(#[trigger] parts@[k]).vars@.contains(var),
+@@ impl<C: CellType> Expr<C> > fn inc_of @ loop 1 body_start
+                let ghost k = it1.index@ as int;
+                let ghost parts0 = parts@;
+                proof {
+                    assert(self.parts@.take(k + 1) =~= self.parts@.take(k).push(self.parts@[k]));
+                    assert(*part == self.parts@[k]);
+                }
+@@ impl<C: CellType> Expr<C> > fn inc_of @ if 2 then_tail
+                    proof {
+                        let c = parts@.last();
+                        assert(parts@ =~= parts0.push(c));
+                        assert(c.coef == part.coef && c.vars@ == part.vars@);
+                        if part.vars@.len() == 1 {
+                            assert(!part.vars@.contains(var)) by {
+                                if part.vars@.contains(var) { let i = choose|i: int| 0 <= i < part.vars@.len() && part.vars@[i] == var; assert(i == 0); }
+                            }
+                        }
+                        assert(!single(self.parts@[k], var));
+                        assert(k != jx);
+                        assert forall|rho: spec_fn(isize) -> nat|
+                            #[trigger] sum_parts(self.parts@.take(k + 1), rho) == sum_parts(parts@, rho) + (if jx < k + 1 { rho(var) } else { 0 }) by {
+                            lemma_sum_push(self.parts@.take(k), self.parts@[k], rho);
+                            lemma_sum_push(parts0, c, rho);
+                            assert(pval(c, rho) == pval(*part, rho));
+                        }
+                    }
+@@ impl<C: CellType> Expr<C> > fn inc_of @ loop 1 body_end
+                proof {
+                    if parts@ == parts0 {
+                        // the dropped part is the plain variable: it is THE one with coefficient 1
+                        assert(single(self.parts@[k], var));
+                        assert(k == jx) by { if k < jx { assert(!(single(self.parts@[k], var) && single(self.parts@[jx], var))); } else if jx < k { assert(!(single(self.parts@[jx], var) && single(self.parts@[k], var))); } }
+                        assert(part.vars@ =~= seq![var]);
+                        assert forall|rho: spec_fn(isize) -> nat|
+                            #[trigger] sum_parts(self.parts@.take(k + 1), rho) == sum_parts(parts@, rho) + (if jx < k + 1 { rho(var) } else { 0 }) by {
+                            lemma_sum_push(self.parts@.take(k), self.parts@[k], rho);
+                            lemma_prod_single(var, rho);
+                            assert(1 * rho(var) == rho(var));
+                        }
+                    }
+                }
+@@ impl<C: CellType> Expr<C> > fn inc_of @ loop 1 after
+            proof {
+                let m = m_of(C::bits());
+                lemma_pow2_pos(C::bits());
+                assert(self.parts@.take(self.parts@.len() as int) =~= self.parts@);
+                assert forall|rho: spec_fn(isize) -> nat|
+                    (#[trigger] sum_parts(self.parts@, rho)) as int % m == (rho(var) + (sum_parts(parts@, rho) as int) % m) % m by {
+                    lemma_add_mod_noop_right(rho(var) as int, sum_parts(parts@, rho) as int, m);
+                }
+            }
 
 #@ ---------------------------------------------------------------- small observers
 @@ impl<C: CellType> Expr<C> > fn is_zero @ d3 r
